@@ -58,6 +58,9 @@ type scriptServer struct {
 	testproto.UnimplementedTestApiServer
 	mu    sync.Mutex
 	calls map[string]*call
+	// current is the script being run, for calls whose context carries no outgoing metadata
+	// to find it by (only scripts that run to their end are made that way)
+	current *call
 }
 
 func newScriptServer() *scriptServer { return &scriptServer{calls: map[string]*call{}} }
@@ -77,11 +80,14 @@ func (s *scriptServer) unregister(c *call) {
 func (s *scriptServer) lookup(ctx context.Context) *call {
 	md, _ := metadata.FromIncomingContext(ctx)
 	ids := md.Get("x-call")
-	if len(ids) != 1 {
-		return nil
-	}
 	s.mu.Lock()
-	c := s.calls[ids[0]]
+	var c *call
+	switch {
+	case len(ids) == 0, len(ids) == 1 && ids[0] == outerCallID:
+		c = s.current // nothing of the caller's to go by (or somebody else's metadata)
+	case len(ids) == 1:
+		c = s.calls[ids[0]]
+	}
 	s.mu.Unlock()
 	if c == nil {
 		return nil
@@ -96,6 +102,10 @@ func (s *scriptServer) lookup(ctx context.Context) *call {
 	c.mu.Unlock()
 	return c
 }
+
+// outerCallID / outerReq are the INCOMING metadata of a caller that is itself a handler.
+const outerCallID = "outer-call"
+const outerReq = 77
 
 var errNoScript = status.Error(codes.FailedPrecondition, "no script for this call")
 
@@ -267,6 +277,7 @@ func serve(c *call, ctx context.Context, stream grpc.ServerStream, first proto.M
 			c.ssent = append(c.ssent, m)
 			c.mu.Unlock()
 			fail(stream.SendMsg(m))
+			scribble(m, altered) // the handler goes on using its message as soon as the send has returned
 		case "wait":
 			select {
 			case <-ctx.Done():
